@@ -949,7 +949,7 @@ fn stmt_text(s: &Stmt) -> String {
 }
 
 pub fn run_c16(ctx: &RunCtx) {
-    ctx.set_rule("sequences of 2-12 generated statements each of which the implementation parses alone without diagnostics (all statement kinds incl. empty statement, pragmas, annotations), joined by line breaks, at file level and inside gate/def/if/else/while/for/case/default/bare-block bodies; all ordered pairs of the statement forms are enumerated in every context. oracle: no diagnostics and the context's statement list equals, as (kind, token text) trees, the concatenation of the separately parsed statements. non-trivial = >=2 statements of different kinds; distinct by kind sequence + context");
+    ctx.set_rule("sequences of 2-12 generated statements each of which the implementation parses alone without diagnostics (all statement kinds incl. empty statement, pragmas, annotations), joined by line breaks, at file level and inside gate/def/if/else/while/for/case/default/bare-block bodies; all ordered pairs of the statement forms are enumerated in every context; long sequences of 64-256 ordinary statements check that nothing accumulates over a statement list. oracle: no diagnostics and the context's statement list equals, as (kind, token text) trees, the concatenation of the separately parsed statements. non-trivial = >=2 statements of different kinds; distinct by kind sequence + context");
     ctx.assume("a statement's own parse is taken at file level; statements whose own parse has diagnostics are not cases");
     let mut forms: Vec<(String, String)> = stmt_forms().into_iter().map(|(n, s)| (n, stmt_text(&s))).collect();
     // the empty statement parses alone without diagnostics (it is not part of the C04 reference syntax)
@@ -1023,6 +1023,30 @@ pub fn run_c16(ctx: &RunCtx) {
             rep.nontrivial = Some(fnv64(format!("{kinds:?}{ci}").as_bytes()));
         }
         rep.sample = Some(parts.join("\n"));
+        rep
+    });
+    // long sequences (64-256 statements of the ordinary kinds): state that accumulates over a
+    // statement list must not change the parse of a later statement
+    let long_forms: Vec<String> = forms
+        .iter()
+        .filter(|(n, _)| {
+            ["decl", "decl-init", "const-decl", "qubit-decl", "gate-call", "gate-call-args", "gate-call-2q", "modified-gate-call", "measure", "measure-assign", "reset", "barrier", "delay", "if-block", "if-else-block-block", "while-block", "for-range-block", "switch", "assign", "assign-indexed", "expr-stmt-call", "expr-stmt-paren", "expr-stmt-neg", "gphase", "def", "gate-def", "return-value", "break"].contains(&n.as_str())
+                || n.starts_with("compound-assign")
+        })
+        .map(|(_, t)| t.clone())
+        .collect();
+    let n = ctx.pick(3_000u64, 60_000u64);
+    ctx.random("long-sequence", n, 300, |src| {
+        let ci = src.below(CONTEXTS.len());
+        let len = 64 + src.below(193);
+        // mostly one recurring kind with others mixed in
+        let main = src.below(long_forms.len());
+        let parts: Vec<String> = (0..len).map(|_| if src.chance(2, 3) { long_forms[main].clone() } else { long_forms[src.below(long_forms.len())].clone() }).collect();
+        let mut rep = CaseReport::default();
+        let judged = check_compose(&parts, &Ctx16Ref(ci), &mut rep.failures);
+        rep.discarded = !judged;
+        rep.class(format!("long/{}", CONTEXTS[ci].name));
+        rep.nontrivial = Some(fnv64(format!("{main}/{len}/{ci}/{}", parts.len()).as_bytes()));
         rep
     });
 }
